@@ -38,6 +38,7 @@ def plan(tier, seed):
     shards = [{"kind": "direct", "sub": i, "n": 500 if tier == "quick" else 3500} for i in range(k)]
     k2 = 6 if tier == "quick" else 48
     shards += [{"kind": "insitu", "sub": i, "n": 40 if tier == "quick" else 500} for i in range(k2)]
+    shards += [{"kind": "cyclic", "sub": i, "n": 400 if tier == "quick" else 4000} for i in range(2 if tier == "quick" else 8)]
     shards.append({"kind": "fixtures"})
     shards.append({"kind": "repo-tests", "part": "solver"})
     shards.append({"kind": "pinned"})
@@ -138,6 +139,34 @@ def gen_instance(rng):
         cyclic = True
         cons = [((b, a, g) if rng.random() < 0.15 else (a, b, g)) for a, b, g in cons]
     return Q.Instance(d, w, s, cons), "%s/%s/%s" % (shape, wc, sc), cyclic
+
+
+def gen_cyclic(rng):
+    """Instances whose constraint graph has directed cycles: rings, rings sharing a node, DAG + back edges,
+    with positive (contradictory) and zero (satisfiable) cycle gaps."""
+    n = rng.choice([2, 3, 3, 4, 5, 6, 8, 12, 20, 35])
+    kind = rng.choice(["ring", "two-rings", "dag+back", "dense"])
+    cons = []
+    g = lambda: rng.choice([0, 0, 1, 3, rng.uniform(0, 10)])
+    if kind == "ring" or n < 4:
+        cons = [(i, (i + 1) % n, g()) for i in range(n)]
+    elif kind == "two-rings":
+        k = n // 2
+        cons = [(i, (i + 1) % k, g()) for i in range(k)] + [(k + i, k + (i + 1) % (n - k), g()) for i in range(n - k)] + [(0, k, g())]
+    elif kind == "dag+back":
+        for b in range(1, n):
+            cons.append((rng.randrange(0, b), b, g()))
+        for _ in range(rng.choice([1, 1, 2, 3])):
+            a, b = sorted(rng.sample(range(n), 2))
+            cons.append((b, a, g()))
+    else:
+        for _ in range(2 * n):
+            a, b = rng.sample(range(n), 2)
+            cons.append((a, b, g()))
+    d = [rng.choice([0, 5, 10, rng.uniform(-50, 50)]) for _ in range(n)]
+    w = [rng.choice([1, 1, 1, 0.5, 2, 1e3]) for _ in range(n)]
+    sc = [1] * n if rng.random() < 0.7 else [rng.choice([0.5, 1, 2]) for _ in range(n)]
+    return Q.Instance(d, w, sc, cons)
 
 
 def build(V, inst):
@@ -301,6 +330,13 @@ def worker(ctx, shard):
                     raise
             for rec in mon.drain():
                 judge_record(ctx, mon, rec, "insitu-layer", False, False)
+    elif kind == "cyclic":
+        rng = ctx.rng("cyclic%d" % shard["sub"])
+        for _ in range(shard["n"]):
+            if ctx.should_stop(60):
+                break
+            inst = gen_cyclic(rng)
+            solve_direct(ctx, mon, V, inst, "cyclic", Q.topo_order(inst) is None)
     elif kind == "fixtures":
         for inst in fixtures():
             solve_direct(ctx, mon, V, inst, "fixtures", Q.topo_order(inst) is None)
